@@ -51,7 +51,7 @@ class WildGen:
         self.k = knobs or Knobs()
         self.n = 0
         f = dict(
-            templates=True, typedefs=False, op_eq=False,      # op_eq: D21 (operator== read as a property)
+            templates=True, typedefs=False, op_eq=True,       # op_eq: operator== (D21, repaired: was read as a property)
             dunder_any=False,                                # names other than len/contains/iter
             numeric_args=True, defaults=True, pair=True, includes=True, fwd=True, enums=True,
             variables=True, operators=True, dunders=True, templated_types=True, inst_templated=True,
